@@ -352,7 +352,8 @@ func (ca *CertificateAuthority) upload(ctx context.Context, manifest *cpb.GCECer
 	entry := getEntry(manifest, keyVersionName)
 	if entry != nil {
 		name = entry.ObjectPath
-		if output.AllowRecoverableError(ctx) {
+		// Keeping the stored certificate is only an option when it may not be replaced.
+		if output.AllowRecoverableError(ctx) && !output.AllowOverwrite(ctx) {
 			return &overwritten{name: name}, nil
 		}
 		output.Warningf(ctx, "key version exists in manifest %v -> %v", keyVersionName, entry.GetObjectPath())
